@@ -215,9 +215,19 @@ class Randomizer(RandIF):
                         f.dispose()
                         
                 if self.solve_fail_debug > 0:
+                    try:
+                        diagnostics = self.create_diagnostics(active_randsets)
+                    except Exception as e:
+                        # Diagnostics are best effort: never mask the solve failure
+                        # and never leave solver variables of the diagnostic run behind
+                        diagnostics = "Solve failure: unable to create diagnostics (%s)" % str(e)
+                        for rs in active_randsets:
+                            for f in rs.all_fields():
+                                f.dispose()
+                            RandSetDisposeVisitor().dispose(rs)
                     raise SolveFailure(
                         "solve failure",
-                        self.create_diagnostics(active_randsets))
+                        diagnostics)
                 else:
                     raise SolveFailure(
                         "solve failure",
